@@ -610,6 +610,21 @@ class CallMixin:
                     return [(st, st.ghost[k])]
                 raise Unsupported(f"WhichOneof({args[0]!r}) of a record whose variant is not known", node)
             raise Unsupported(f"object.{name}", node)
+        if kind == "objdict" and name == "get":
+            # instance-dictionary look-up by a constant name: the instance field of that name.  Objects met by the
+            # executor are fully constructed (every field of their class is set), so the default is never taken for a
+            # field of the class; any other name is not an instance attribute.
+            if not args or not isinstance(args[0], str):
+                raise Unsupported("__dict__.get with a non-constant name", node)
+            ref = self_.ref
+            default = args[1] if len(args) > 1 else None
+            out = []
+            for s2, classes, _ in self.split_classes(st, ref, lambda c: args[0] in self.instance_fields(c), f".__dict__[{args[0]}]"):
+                if args[0] in self.instance_fields(classes[0]):
+                    out.extend(self.read_field(s2, ref, args[0]))
+                else:
+                    out.append((s2, default))
+            return out
         if kind == "slice" and name == "indices":
             from .pysem import slice_indices
             if not isinstance(args[0], (int, SInt)):
